@@ -317,7 +317,7 @@ func (m *c16) ops() []*c16Op {
 			return nil
 		}})
 	add(&c16Op{name: "ecdsa.Sign+VerifyASN1", group: "ecdsa", names: []string{"digest"},
-		inputs: func(r *core.Rand) [][]byte { return [][]byte{r.Bytes(r.Of(0, 20, 48, 64))} },
+		inputs: func(r *core.Rand) [][]byte { return [][]byte{r.Bytes(r.Of(0, 20, 48, 64, 49, 128))} },
 		call: func(a [][]byte) []byte {
 			sig, err := ecdsa.SignASN1(setupReader(), ecKey, a[0])
 			must(err)
@@ -340,9 +340,37 @@ func (m *c16) ops() []*c16Op {
 			return []byte{0}
 		}})
 
+	// error values are handed out too: the error one call returned reads the same after a later failing call
+	add(&c16Op{name: "ecdsa errors for unsupported curves", group: "ecdsa", names: []string{"context"},
+		inputs: func(r *core.Rand) [][]byte { return [][]byte{r.Bytes(r.Of(0, 13, 60))} },
+		call: func(a [][]byte) []byte {
+			var errs []error
+			var texts []string
+			for _, nm := range []string{"P-256-copy", "another-curve", "P-384 ", ""} {
+				cp := *elliptic.P256().Params()
+				cp.Name = nm
+				_, err := ecdsa.BlindPublicKeyWithContext(&cp, &ecKey.PublicKey, ecBlind, a[0])
+				if err == nil {
+					panic("key blinding on a curve without a suite returned no error")
+				}
+				_, err2 := ecdsa.UnblindPublicKeyWithContext(&cp, &ecKey.PublicKey, ecBlind, a[0])
+				if err2 == nil {
+					panic("key unblinding on a curve without a suite returned no error")
+				}
+				errs, texts = append(errs, err, err2), append(texts, err.Error(), err2.Error())
+			}
+			for i := range errs {
+				if errs[i].Error() != texts[i] {
+					panic(fmt.Sprintf("an error returned earlier now reads %q; it read %q when it was returned", errs[i].Error(), texts[i]))
+				}
+			}
+			return nil
+		}})
+
 	// big-integer arguments: r and s handed to Verify are the caller's objects
 	add(&c16Op{name: "ecdsa.Verify(r, s *big.Int)", group: "ecdsa", names: []string{"digest"},
-		inputs: func(r *core.Rand) [][]byte { return [][]byte{r.Bytes(48)} },
+		// digests shorter than, as long as and longer than every curve's order (a P-521 order is 66 bytes less 7 bits)
+		inputs: func(r *core.Rand) [][]byte { return [][]byte{r.Bytes(r.Of(48, 66, 67, 128, 28, 65, 32, 200))} },
 		call: func(a [][]byte) []byte {
 			for _, cv := range []elliptic.Curve{elliptic.P224(), elliptic.P256(), elliptic.P384(), elliptic.P521()} {
 				k, err := ecdsa.GenerateKey(cv, setupReader())
